@@ -54,8 +54,10 @@ static inline int c10_is_cell(const void *p)
     const char *q = (const char *)p;
     return q >= c10_zone && q < c10_zone + c10_cap * c10_elemsz && (size_t)(q - c10_zone) % c10_elemsz == 0;
 #else
-    return __CPROVER_same_object(p, c10_zone) && (size_t)__CPROVER_POINTER_OFFSET(p) < c10_cap * c10_elemsz &&
-           (size_t)__CPROVER_POINTER_OFFSET(p) % c10_elemsz == 0;
+    /* offsets relative to the zone: the zone may be a member of a larger object (static_object_pool::storage) */
+    return __CPROVER_same_object(p, c10_zone) && __CPROVER_POINTER_OFFSET(p) >= __CPROVER_POINTER_OFFSET(c10_zone) &&
+           (size_t)(__CPROVER_POINTER_OFFSET(p) - __CPROVER_POINTER_OFFSET(c10_zone)) < c10_cap * c10_elemsz &&
+           (size_t)(__CPROVER_POINTER_OFFSET(p) - __CPROVER_POINTER_OFFSET(c10_zone)) % c10_elemsz == 0;
 #endif
 }
 static inline size_t c10_cell_index(const void *p)
@@ -63,7 +65,7 @@ static inline size_t c10_cell_index(const void *p)
 #ifdef REPLAY
     return (size_t)((const char *)p - c10_zone) / c10_elemsz;
 #else
-    return (size_t)__CPROVER_POINTER_OFFSET(p) / c10_elemsz;
+    return (size_t)(__CPROVER_POINTER_OFFSET(p) - __CPROVER_POINTER_OFFSET(c10_zone)) / c10_elemsz;
 #endif
 }
 
